@@ -49,7 +49,11 @@ def main(spec_path):
     L.append("")
     for th in spec["theorems"]:
         L.append(f"(* {th['comment']} *)")
-        L.append(f"Theorem {th['name']} :\n  {statement(th['lib'], th['lemma'])}.")
+        st = statement(th['lib'], th['lemma'])
+        if th.get("section_binders"):
+            # the lemma is stated inside a Section: the variables it uses become leading binders
+            st = f"forall {th['section_binders']},\n  {st}"
+        L.append(f"Theorem {th['name']} :\n  {st}.")
         L.append(f"Proof. exact {th['lemma']}. Qed.")
         L.append(f"Print Assumptions {th['name']}.")
         L.append("")
